@@ -33,10 +33,10 @@ theorem step_bImm (w : BitVec 32) (s : A64.St) (hc : fld w 30 26 = 0b00101) : A6
 theorem lift_branches_of (w : BitVec 32) (addr : Nat) (hnop : w.toNat ≠ 0xd503201f)
     (h1 : fld w 28 23 ≠ 0b100010) (h3 : fld w 28 23 ≠ 0b100101) (h4 : fld w 28 24 ≠ 0b01011)
     (h5 : fld w 28 24 ≠ 0b01010) (h6 : ¬ (fld w 29 27 = 0b111 ∧ (!bit w 25) = true))
-    (h7 : fld w 28 23 ≠ 0b100100) :
+    (h7 : fld w 28 23 ≠ 0b100100) (h8 : ¬ (fld w 27 27 = 1 ∧ fld w 25 25 = 0)) :
     lift w addr = branches w addr := by
   unfold lift
-  simp only [hnop, h1, h3, h4, h5, h6, h7, ↓reduceIte, false_and]
+  simp only [hnop, h1, h3, h4, h5, h6, h7, h8, ↓reduceIte, false_and]
 
 theorem target_eq (s : A64.St) (addr imm bits : Nat) (hpc : s.pc = BitVec.ofNat 64 addr) :
     target addr imm bits = (s.pc + A64.sext64 imm bits 2).toNat := by
@@ -53,7 +53,8 @@ theorem bImm_agrees (w : BitVec 32) (addr : Nat) (r : BTR) (hc : fld w 30 26 = 0
   have h6 : ¬ (fld w 29 27 = 0b111 ∧ (!bit w 25) = true) := by
     intro h; unfold A64.fld at h hc; omega
   have h36 : fld w 28 23 ≠ 0b100100 := by intro h; unfold A64.fld at h hc; omega
-  rw [lift_branches_of w addr hnop h1 h3 h4 h5 h6 h36] at h
+  have h27 : ¬ (fld w 27 27 = 1 ∧ fld w 25 25 = 0) := by intro h; unfold A64.fld at h hc; omega
+  rw [lift_branches_of w addr hnop h1 h3 h4 h5 h6 h36 h27] at h
   unfold branches at h
   simp only [hc, ↓reduceIte] at h
   unfold Agrees
@@ -118,7 +119,8 @@ theorem brReg_agrees (w : BitVec 32) (addr : Nat) (r : BTR) (hc : fld w 31 25 = 
   have b3 : fld w 30 25 ≠ 0b011010 := by intro h; unfold A64.fld at h hc; omega
   have b4 : fld w 30 25 ≠ 0b011011 := by intro h; unfold A64.fld at h hc; omega
   have h36 : fld w 28 23 ≠ 0b100100 := by intro h; unfold A64.fld at h hc; omega
-  rw [lift_branches_of w addr hnop h1 h3 h4 h5 h6 h36] at h
+  have h27 : ¬ (fld w 27 27 = 1 ∧ fld w 25 25 = 0) := by intro h; unfold A64.fld at h hc; omega
+  rw [lift_branches_of w addr hnop h1 h3 h4 h5 h6 h36 h27] at h
   unfold branches at h
   simp only [b1, b3, b4, hc, ↓reduceIte, show ¬ ((107 : Nat) = 42) by decide] at h
   unfold Agrees
